@@ -261,6 +261,13 @@ pub fn c06(ctx: &Ctx) -> PropResult {
             cases.push(Case::new(Kind::Run, nl).tag("newline-ends-statement").aux(semi));
         }
     }
+    // (appended) a header that ends in a statement-ending token and its body are one statement only on one line (after
+    // TIMES and ELSE, which cannot end a statement, the body may follow on the next line)
+    for (a, b) in [("FOR EACH x IN [1]", "{\nDISPLAY(x)\n}"), ("FOR EACH x IN l", "DISPLAY(x)"), ("FOR EACH x IN f(l)", "{\n}"), ("IF (TRUE)", "DISPLAY(8)"), ("PROCEDURE g()", "RETURN 1"), ("REPEAT UNTIL (TRUE)", "DISPLAY(9)"), ("IF (FALSE) {\n} ELSE IF (TRUE)", "{\nDISPLAY(3)\n}"), ("FOR EACH x IN \"ab\"", "{\nDISPLAY(x)\n}"), ("FOR EACH x IN (l)", "{\nDISPLAY(x)\n}")] {
+        let nl = format!("y <- 1\nl <- [1, 2]\nPROCEDURE f(q) {{\nRETURN q\n}}\n{a}\n{b}\nDISPLAY(\"end\")\n");
+        let semi = format!("y <- 1\nl <- [1, 2]\nPROCEDURE f(q) {{\nRETURN q\n}}\n{a};{b}\nDISPLAY(\"end\")\n");
+        cases.push(Case::new(Kind::Run, nl).tag("newline-ends-statement").aux(semi));
+    }
     let enders2 = enders.clone();
     let oracle = move |case: &Case, out: &Outcome| -> Result<bool, String> {
         if case.tags.iter().any(|t| t == "layout") {
@@ -339,7 +346,7 @@ pub fn c06(ctx: &Ctx) -> PropResult {
     let stats = run_cases(&ctx.driver, cases, &oracle, &no_known, ctx.threads);
     PropResult {
         stats,
-        rule: format!("{} programs (the repository's tests and examples, generated programs) -> token stream -> {} random admissible renderings each: at every token boundary one of nothing (only next to a bracket or comma), blanks, tab, CR, backslash-newline, and - where the previous token cannot end a statement - newline, CRLF, blank lines or a // comment with non-ASCII text; every terminator as newline, CRLF, comment+newline or ';'; every keyword independently upper or lower case; leading and trailing blank/comment material; implementation-only oracle: same tokens (kinds, literals, text) and same behaviour as the canonical layout; the variant is also run through the model; converse clause: for every token kind a newline (or comment+newline) after it yields a terminator exactly for the kinds of the extracted ender set; the fourth extreme layout leaves out every separator the lexical grammar does not need (a number directly before a word, words next to operators); terminators made of a continuation and comment-only lines; names that begin with a keyword at line starts; fifteen constructs as the very last thing of the input ending in nothing / blank / tab / CR / comment / ; / continuation; a binary minus or a comparison in front of a unary minus", programs.len(), per),
+        rule: format!("{} programs (the repository's tests and examples, generated programs) -> token stream -> {} random admissible renderings each: at every token boundary one of nothing (only next to a bracket or comma), blanks, tab, CR, backslash-newline, and - where the previous token cannot end a statement - newline, CRLF, blank lines or a // comment with non-ASCII text; every terminator as newline, CRLF, comment+newline or ';'; every keyword independently upper or lower case; leading and trailing blank/comment material; implementation-only oracle: same tokens (kinds, literals, text) and same behaviour as the canonical layout; the variant is also run through the model; converse clause: for every token kind a newline (or comment+newline) after it yields a terminator exactly for the kinds of the extracted ender set; the fourth extreme layout leaves out every separator the lexical grammar does not need (a number directly before a word, words next to operators); terminators made of a continuation and comment-only lines; names that begin with a keyword at line starts; fifteen constructs as the very last thing of the input ending in nothing / blank / tab / CR / comment / ; / continuation; a binary minus or a comparison in front of a unary minus; header and body on two lines for headers that end in a statement-ending token", programs.len(), per),
         exhaustive: false,
         notes: vec![],
     }
@@ -730,6 +737,16 @@ pub fn c09(ctx: &Ctx) -> PropResult {
         cases.push(Case::new(Kind::Parse, p.clone()).tag("return-value-starts"));
         cases.push(Case::new(Kind::Run, p).tag("return-value-starts-run"));
     }
+    // (appended) comments change nothing: the derivations with a comment at the end of every line, of every other line,
+    // and with comment-only lines between the statements
+    for (i, p) in valid.iter().enumerate().take(if ctx.quick() { 1_000 } else { 20_000 }) {
+        let commented: String = match i % 3 {
+            0 => p.replace('\n', " // c\n"),
+            1 => p.lines().enumerate().map(|(k, l)| if k % 2 == 0 { format!("{l} // é {k}\n") } else { format!("{l}\n") }).collect(),
+            _ => p.lines().map(|l| format!("{l}\n// own line\n")).collect(),
+        };
+        cases.push(Case::new(Kind::Parse, commented).tag("derivation-comments").aux("accept".into()));
+    }
     let oracle = |case: &Case, out: &Outcome| -> Result<bool, String> {
         let rec = &out.impl_rec;
         if let Some(m) = rec.strip_prefix("panic ") {
@@ -759,7 +776,7 @@ pub fn c09(ctx: &Ctx) -> PropResult {
     let stats = run_cases(&ctx.driver, cases, &oracle, &no_known, ctx.threads);
     PropResult {
         stats,
-        rule: "random derivations of the documented statement grammar (expression statements, IF / ELSE IF / ELSE, REPEAT TIMES, REPEAT UNTIL, FOR EACH, PROCEDURE and EXPORT PROCEDURE with 0-3 parameters, RETURN valued and bare, BREAK / CONTINUE inside loops, the three IMPORT forms, nested bare blocks; depth <= 3, <= 3 statements per block) with an independent terminator choice per statement (newline, ';', '; ', blank line, directly before '}' or the end of input) and block-opening layout; the documented forms of the property's text verbatim; rejection: 31 fixed misplaced / unbalanced / missing-operand programs and every random single bracket deletion / insertion in a valid derivation that a bracket counter proves unbalanced; implementation-only oracle: accepted / rejected with >= 1 diagnostic; syntax trees and diagnostic labels compared with the model; nesting depths 1 .. 200 of every block kind and expression kind, ELSE IF chains and flat programs of 1 .. 300 parts (accepted and run); names that begin with a keyword; brace-less branches followed by ELSE on the same line, brace-less bodies at the end of the input (as the model says); RETURN followed by every kind of expression start".into(),
+        rule: "random derivations of the documented statement grammar (expression statements, IF / ELSE IF / ELSE, REPEAT TIMES, REPEAT UNTIL, FOR EACH, PROCEDURE and EXPORT PROCEDURE with 0-3 parameters, RETURN valued and bare, BREAK / CONTINUE inside loops, the three IMPORT forms, nested bare blocks; depth <= 3, <= 3 statements per block) with an independent terminator choice per statement (newline, ';', '; ', blank line, directly before '}' or the end of input) and block-opening layout; the documented forms of the property's text verbatim; rejection: 31 fixed misplaced / unbalanced / missing-operand programs and every random single bracket deletion / insertion in a valid derivation that a bracket counter proves unbalanced; implementation-only oracle: accepted / rejected with >= 1 diagnostic; syntax trees and diagnostic labels compared with the model; nesting depths 1 .. 200 of every block kind and expression kind, ELSE IF chains and flat programs of 1 .. 300 parts (accepted and run); names that begin with a keyword; brace-less branches followed by ELSE on the same line, brace-less bodies at the end of the input (as the model says); RETURN followed by every kind of expression start; the derivations with comments at line ends and on lines of their own".into(),
         exhaustive: false,
         notes: vec![],
     }
@@ -948,6 +965,16 @@ pub fn c11(ctx: &Ctx) -> PropResult {
             }
         }
     }
+    // (appended) a failing construct at the very end of a text with many multi-byte characters in front of it (byte
+    // offsets and character counts differ by hundreds)
+    for (expr, label) in failing {
+        for heavy in ["// ── 語語語語語語語語語語語語語語語語語語語語語語語語語語語語語語語語語語語語語語語語 ──\n", "banner <- \"╔══════════════════════════════════════╗ 😀😀😀😀😀😀😀😀😀😀\"\n"] {
+            for tail in ["", "\n"] {
+                let src = format!("{heavy}lst <- [1, 2, 3]\nstr <- \"héllo\"\nnum <- 5\nPROCEDURE one(p) {{\n RETURN p\n}}\nDISPLAY(\"éarlier output\")\nx <- {expr}{tail}");
+                cases.push(run_case(src, "runtime-error").aux(label.to_string()));
+            }
+        }
+    }
     let oracle = |case: &Case, out: &Outcome| -> Result<bool, String> {
         let Some(r) = out.impl_run.as_ref() else { return Ok(false) };
         let src = &case.src;
@@ -976,6 +1003,15 @@ pub fn c11(ctx: &Ctx) -> PropResult {
             }
             End::Rt(o, l, _) => {
                 check(*o, *l)?;
+                // the report the crate's own pipeline hands to the command-line tool carries the interpreter's label
+                // unchanged (the conversion between the two is glue the model does not see)
+                if case.files.is_empty() {
+                    if let Some(labels) = imp::public_runtime_labels(&case.src, &case.path, case.fuel.max(200_000), 48) {
+                        if labels.first() != Some(&(*o, *l)) {
+                            return Err(format!("the report of the public pipeline is labelled {:?}, the interpreter's error {o}+{l}", labels));
+                        }
+                    }
+                }
                 // the diagnostic is attached to this program's text
                 if let Some(text) = r.rt_source.as_ref() {
                     if case.files.is_empty() && text != src {
@@ -1012,7 +1048,7 @@ pub fn c11(ctx: &Ctx) -> PropResult {
     let stats = run_cases(&ctx.driver, cases, &oracle, &no_known, ctx.threads);
     PropResult {
         stats,
-        rule: "22 failing expressions (every runtime-error kind: arithmetic and type errors, division / MOD by zero, undefined variable / procedure, index out of range / of wrong type / on a non-indexable, wrong argument count, argument casts, INSERT / REMOVE range) x 10 expression / statement contexts (nested in arithmetic, conditions, list literals, call arguments, loops, recursion depth 3), loop-header and indexed-assignment errors, 17 lexical / syntactic errors, random programs; every source prefixed with random noise (comments with 2-, 3- and 4-byte characters, blank lines, strings containing newlines); implementation-only oracle: every label inside the source on character boundaries, the labelled text is the construct the property names for that error kind, earlier output intact; error spans compared with the model; non-trivial = a diagnostic was produced; every library procedure x argument position x twelve values (some written with commas), the other arguments type-correct, plain and written with commas; two- and three-level set targets and reads with the failing index at each level; the opening brace on the line after a header with a wrong value; modules that fail to lex or parse under three import spellings".into(),
+        rule: "22 failing expressions (every runtime-error kind: arithmetic and type errors, division / MOD by zero, undefined variable / procedure, index out of range / of wrong type / on a non-indexable, wrong argument count, argument casts, INSERT / REMOVE range) x 10 expression / statement contexts (nested in arithmetic, conditions, list literals, call arguments, loops, recursion depth 3), loop-header and indexed-assignment errors, 17 lexical / syntactic errors, random programs; every source prefixed with random noise (comments with 2-, 3- and 4-byte characters, blank lines, strings containing newlines); implementation-only oracle: every label inside the source on character boundaries, the labelled text is the construct the property names for that error kind, earlier output intact; error spans compared with the model; non-trivial = a diagnostic was produced; every library procedure x argument position x twelve values (some written with commas), the other arguments type-correct, plain and written with commas; two- and three-level set targets and reads with the failing index at each level; the opening brace on the line after a header with a wrong value; modules that fail to lex or parse under three import spellings; every runtime error also through the crate's public pipeline (ApLang::execute): the report's label is the interpreter's; failing constructs at the very end of texts with hundreds of multi-byte bytes in front".into(),
         exhaustive: false,
         notes: vec![],
     }
